@@ -162,6 +162,28 @@ def candidates(prog, f):
         L = v.ops[0]
         base = strip_casts(resolve_ptr(prog, L, f.unit)[0])
         if base.is_inst and base.op == "alloca":
+            # a local that holds the pointer: the same local's value may have been put into caller-visible memory before
+            # (`obj->data = raw; ... fail: free(raw);`)
+            writers = [i for i in f.insts() if (i.op == "store" and strip_casts(i.ops[1]) is base) or
+                       (i.op == "call" and any(strip_casts(o) is base for o in i.ops))]
+            for st in f.insts():
+                if st.op != "store":
+                    continue
+                sv = strip_casts(st.ops[0])
+                if not (sv.is_inst and sv.op == "load" and strip_casts(sv.ops[0]) is base) or not f.inst_dominates(st, c):
+                    continue
+                L2 = st.ops[1]
+                b2 = strip_casts(resolve_ptr(prog, L2, f.unit)[0])
+                if b2.is_inst and b2.op == "alloca":
+                    continue
+                # the local was not given another value between that store and the free
+                if any((f.inst_dominates(sv, w) or f.reaches(sv.bb, w.bb)) and (f.inst_dominates(w, c) or f.reaches(w.bb, c.bb)) and
+                       not f.inst_dominates(w, sv) for w in writers):
+                    continue
+                if any(i.op == "store" and i is not st and _same_loc(prog, f, i.ops[1], L2) and f.inst_dominates(st, i) and
+                       f.inst_dominates(i, c) for i in f.insts()):
+                    continue
+                out.append((c, L2, b2))
             continue
         # L was given a new value between the load and the free: it no longer holds v
         if any(i.op == "store" and _same_loc(prog, f, i.ops[1], L) and (f.inst_dominates(v, i) or f.reaches(v.bb, i.bb)) and
